@@ -17,7 +17,7 @@ EXPLANATION = (
     "(pandas drops null-key groups by default; third-party contract table). S3 Polars: the un-grouped project "
     "groups by a constant stand-in column and restores one all-null row when the input was empty; grouped "
     "project groups by exactly op.group_by. Not decided: row counts on data, SQL GROUP BY null semantics "
-    "(one group per standard)."
+    "(one group per standard). S4 windowed extend on SQL: the merge of two extends into one SELECT is guarded by, and the declared term dependencies include, the partition and order columns of the window (the C04 rule), so each row's window is its own group as keyed by the pipeline."
 )
 
 
@@ -179,8 +179,8 @@ def _s3(program, res):
         if "shape" in unparse(n.cond):
             outer = [unparse(b.cond) for b, lab in g.lexical_guards(n) if lab is True]
             if any("op.group_by" in o for o in outer):
-                assigns = [s for s in ast.walk(n.stmt) if isinstance(s, ast.Assign) and unparse(s.targets[0]) == "res"]
-                if assigns and "[None]" in unparse(assigns[0].value):
+                assigns = [s for s in ast.walk(n.stmt) if isinstance(s, ast.Assign) and isinstance(s.targets[0], ast.Name)]
+                if any("[None]" in unparse(a.value) and "DataFrame" in unparse(a.value) for a in assigns):
                     ok = True
     if ok:
         res.ok("C09-S3", "Polars un-grouped project restores one all-null row when the aggregation returned no row")
@@ -198,3 +198,7 @@ def run(program, res, tier):
     _s1(program, res)
     _s2(program, res)
     _s3(program, res)
+    res.rule("C09-S4", "SQL windowed extend: the window's keys are the declared ones (no merge into the SELECT that recomputes them)")
+    from ..report import Relabel
+    from . import c04
+    c04._s1c(program, Relabel(res, {"*": "C09-S4"}))
